@@ -268,24 +268,49 @@ def coq_eval(name, vtext, timeout=900):
 
 def ocaml_build(group, timeout=900):
     """ocaml/<group>/ holds extract.v (Extraction "gen_model.ml" ...) and driver.ml.  Runs the
-    extraction (needs the .vo files built) and compiles ./driver.  Returns path of the binary."""
+    extraction (needs the .vo files built) in a private directory, and only when the extracted code or
+    driver.ml changed recompiles ./driver (atomically replaced, so a concurrently running driver is not
+    disturbed).  Returns path of the binary."""
     d = os.path.join(VERIF, "ocaml", group)
-    with Lock(".build.lock"):
-        srcs = [os.path.join(d, "extract.v"), os.path.join(d, "driver.ml")]
-        exe = os.path.join(d, "driver")
-        rc, out = sh(["coqc", "-q", "-noglob", "-Q", COQ, "RB", "-w", "none", "extract.v"], cwd=d, timeout=timeout)
-        for junk in ("extract.vo", "extract.vok", "extract.vos", ".extract.aux", "extract.glob"):
-            try:
-                os.remove(os.path.join(d, junk))
-            except OSError:
-                pass
+    exe = os.path.join(d, "driver")
+    os.makedirs(SCRATCH, exist_ok=True)
+    tmp = os.path.join(SCRATCH, "ocaml_%s_%d" % (group, os.getpid()))
+    shutil.rmtree(tmp, ignore_errors=True)
+    os.makedirs(tmp)
+    try:
+        shutil.copy(os.path.join(d, "extract.v"), tmp)
+        shutil.copy(os.path.join(d, "driver.ml"), tmp)
+        with Lock(".build.lock"):
+            rc, out = sh(["coqc", "-q", "-noglob", "-Q", COQ, "RB", "-w", "none", "extract.v"], cwd=tmp, timeout=timeout)
         if rc != 0:
             raise BrokenTie("extraction failed for " + group, out[-4000:])
+
+        def rd(path):
+            try:
+                return open(path, "rb").read()
+            except OSError:
+                return None
+        same = all(rd(os.path.join(tmp, f)) == rd(os.path.join(d, f)) for f in ("gen_model.ml", "gen_model.mli"))
+        stamp = os.path.join(d, ".driver.stamp")
+        want = hashlib.blake2b((rd(os.path.join(tmp, "gen_model.ml")) or b"") + (rd(os.path.join(tmp, "gen_model.mli")) or b"")
+                               + rd(os.path.join(d, "driver.ml")), digest_size=16).hexdigest()
+        if same and os.path.exists(exe) and rd(stamp) == want.encode():
+            return exe
         rc, out = sh("ocamlfind ocamlopt -O2 -w -a -package str -linkpkg gen_model.mli gen_model.ml driver.ml -o driver",
-                     cwd=d, timeout=timeout)
-        if rc != 0 or not os.path.exists(exe):
+                     cwd=tmp, timeout=timeout)
+        if rc != 0 or not os.path.exists(os.path.join(tmp, "driver")):
             raise BrokenTie("ocaml build failed for " + group, out[-4000:])
-    return exe
+        with Lock(".ocaml.lock"):
+            for f in ("gen_model.ml", "gen_model.mli"):
+                shutil.copy(os.path.join(tmp, f), os.path.join(d, f))
+            tmpexe = exe + ".new.%d" % os.getpid()
+            shutil.copy(os.path.join(tmp, "driver"), tmpexe)
+            os.chmod(tmpexe, 0o755)
+            os.replace(tmpexe, exe)
+            open(stamp, "w").write(want)
+        return exe
+    finally:
+        shutil.rmtree(tmp, ignore_errors=True)
 
 
 # ----------------------------------------------------------------------------- Rust harness
